@@ -1069,10 +1069,12 @@ rrul_fill_yly(echs_instant_t *restrict tgt, size_t nti, rrulsp_t rr)
 		}
 	}
 
-	/* start a year early when dates can move forward into our year */
-	y -= echs_shift_dvalue(rr->shift) > 0 ||
-		echs_shift_bday_p(rr->shift) && !echs_shift_neg_p(rr->shift) ||
-		bi383_has_bits_p(&rr->easter);
+	/* start a period early when dates can move forward into our year */
+	if (echs_shift_dvalue(rr->shift) > 0 ||
+	    echs_shift_bday_p(rr->shift) && !echs_shift_neg_p(rr->shift) ||
+	    bi383_has_bits_p(&rr->easter)) {
+		y -= rr->inter;
+	}
 
 	/* fill up the array the hard way */
 	for (res = 0UL, tries = 64U; res < nti && y < 2100U && --tries; y += rr->inter) {
@@ -1254,11 +1256,13 @@ rrul_fill_mly(echs_instant_t *restrict tgt, size_t nti, rrulsp_t rr)
 			/* dates move forward into our month, 0B does that too,
 			 * step back at least as many months as the shift
 			 * can span (short months, a weekend to cross) */
-			m -= 1 + (tmp + 3 * bdayp) / 28;
+			tmp = 1 + (tmp + 3 * bdayp) / 28;
+			/* in whole periods */
+			m -= (tmp + rr->inter - 1) / rr->inter * rr->inter;
 		} else if (tmp < 0) {
 			/* dates move backward, skip no more months than
-			 * the shift is sure to span */
-			m += -tmp / 31;
+			 * the shift is sure to span, in whole periods */
+			m += -tmp / 31 / rr->inter * rr->inter;
 		}
 		/* bring the month back into the year */
 		for (; m <= 0; m += 12, y--);
